@@ -258,6 +258,10 @@ impl ValSpec {
 
 /// Sizes around the CBOR head boundaries; `big` additionally allows the 16-bit boundary.
 pub fn gen_size(r: &mut Rng, big: bool) -> u32 {
+    if r.chance(1, 24) {
+        // around allocator / chunking boundaries
+        return *r.pick(&[4090u32, 4095, 4096, 4097, 4100, 5000, 8191, 8192, 8193, 12_000, 16_383, 16_384, 16_385, 20_000]);
+    }
     match r.below(if big { 12 } else { 10 }) {
         0 => 0,
         1 => 1,
